@@ -4,7 +4,8 @@ Line-protocol handler for the protocol skeleton (ConserveModel/Protocol.lean).
 
 Request (one line, space separated):
 
-    proto <bits|-> <lock 0|1> <del> <needed> <present> <band>*
+    proto <bits|-> <lock 0|1> <del> <needed> <present> <band>*        the code as it is (recheck = true)
+    proto-old <bits|-> <lock 0|1> <del> <needed> <present> <band>*    the backup before the repair of D7
 
 * `<bits>`: one `0`/`1` per *storage operation* of the projected real run that maps to a skeleton
   event (`0` = the backup moves, `1` = gc moves).  A deduplication (`B.block g` with g in the
@@ -48,7 +49,8 @@ def showBand (b : Band) : String :=
 
 def showEv : Ev → String
   | .bLockCheck => "B.lockCheck" | .bListBasis => "B.listBasis" | .bListId => "B.listId"
-  | .bMkdir => "B.mkdir" | .bHead => "B.head" | .bListBlocks => "B.listBlocks"
+  | .bMkdir => "B.mkdir" | .bHead => "B.head" | .bLockCheck2 => "B.lockCheck2"
+  | .bListBlocks => "B.listBlocks"
   | .bBlock g w => "B.block:" ++ toString g ++ (if w then ":w" else ":d")
   | .bHunk => "B.hunk" | .bTail => "B.tail"
   | .gLast => "G.last" | .gTailCheck => "G.tailCheck" | .gLockCheck => "G.lockCheck"
@@ -58,7 +60,7 @@ def showEv : Ev → String
   | .gUnlock => "G.unlock"
 
 def Ev.isB : Ev → Bool
-  | .bLockCheck | .bListBasis | .bListId | .bMkdir | .bHead | .bListBlocks
+  | .bLockCheck | .bListBasis | .bListId | .bMkdir | .bHead | .bLockCheck2 | .bListBlocks
   | .bBlock _ _ | .bHunk | .bTail => true
   | _ => false
 
@@ -86,13 +88,12 @@ def expandSched : List Bool → State → List Bool
   | true :: rest, p => true :: expandSched rest (stepG p)
 
 def showBPc : BPc → String
-  | .done => "ok" | .refused => "refused" | .failed => "failed" | _ => "unfinished"
+  | .done => "ok" | .refused | .refused2 => "refused" | .failed => "failed" | _ => "unfinished"
 def showGPc : GPc → String
   | .done => "ok" | .refused => "refused" | .failed => "failed" | _ => "unfinished"
 
-def handleProtocol (toks : List String) : Option (List String) :=
-  match toks with
-  | "proto" :: bits :: lock :: del :: needed :: pres :: bands =>
+def answerProtocol (recheck : Bool) (bits lock del needed pres : String) (bands : List String) :
+    List String :=
     let r : Option (List String) := do
       let sched ← if bits = "-" then some [] else
         bits.toList.mapM fun c => if c == '0' then some false else if c == '1' then some true else none
@@ -101,7 +102,7 @@ def handleProtocol (toks : List String) : Option (List String) :=
       let needed ← parseIds needed
       let pres ← parseIds pres
       let bands ← bands.mapM parseBand
-      let c : Config := { bands, present := pres, lock, del, needed }
+      let c : Config := { bands, present := pres, lock, del, needed, recheck }
       let full := expandSched sched c.start
       let s := runProto full c.start
       let evs := s.log.reverse
@@ -114,7 +115,14 @@ def handleProtocol (toks : List String) : Option (List String) :=
         "dangling " ++ showIds (danglingBands s),
         " ".intercalate ("bands" :: s.bands.map showBand),
         "present " ++ showIds s.present ]
-    some (r.getD ["bad-op"])
+    r.getD ["bad-op"]
+
+def handleProtocol (toks : List String) : Option (List String) :=
+  match toks with
+  | "proto" :: bits :: lock :: del :: needed :: pres :: bands =>
+    some (answerProtocol true bits lock del needed pres bands)
+  | "proto-old" :: bits :: lock :: del :: needed :: pres :: bands =>
+    some (answerProtocol false bits lock del needed pres bands)
   | _ => none
 
 end Conserve.Proto
